@@ -32,7 +32,7 @@ CInit == /\ \E c \in Cfgs : DInitWith(c)
 
 CDetect == /\ Len(hist) < MaxLen
            /\ \E f \in Frames : \E aff \in (IF WithFFC THEN BOOLEAN ELSE {FALSE}) :
-                /\ Detect(f, aff, FALSE, 0)
+                /\ Detect(f, aff, NoTies, 0)
                 /\ hist' = Append(hist, [f |-> f, aff |-> aff])
                 /\ everAff' = (everAff \/ aff)
                 /\ lastThresh' = thresh /\ UNCHANGED nres
